@@ -209,7 +209,7 @@ def term(c, rep):
     return None
 
 
-CAPS_QUICK = {"bin": 300, "cmp": 80, "un": 40, "cmpif": 80, "cmpfi": 80, "mixif": 20, "mixfi": 20, "parse": 50,
+CAPS_QUICK = {"bin": 300, "cmp": 80, "un": 40, "cmpif": 150, "cmpfi": 150, "mixif": 20, "mixfi": 20, "parse": 50,
               "rng_in": 60, "rng_idx": 60, "rng_slice": 40, "rng_slice_len": 40}
 CAPS_THOROUGH = {"bin": 8000, "cmp": 2500, "cmpif": 2500, "cmpfi": 2500, "mixif": 1200, "mixfi": 1200, "parse": 2500,
                  "rng_in": 2000, "rng_idx": 2000}
@@ -340,7 +340,7 @@ def run(ctx):
         ctx.broken("correspondence:C10.Model", "model and implementation differ on %d case(s) where the specification is met, e.g. %s" % (len(only_model), c))
     cov = {
         "evaluations": evaluations, "distinct_nontrivial": len(terms),
-        "rule": "ordered product of the boundary pool {0, +-1, +-2, +-3, +-7, +-10, +-2^31(+-1), +-2^32(+-1), +-2^53(+-1), +-2^63(+-1), +-2^64(+-1), ...} x itself x 10 binary operators x 6 comparisons, unary operators, shifts by boundary counts, seeded random magnitudes up to 2^200, ints x float pool (subnormals, +-0, +-inf, NaN, halves, neighbours of 2^31/2^32/2^53/2^63/2^64) for comparisons / mixed arithmetic / conversions, int(string, base) on printed and corrupted literals, range/enumerate/repetition on a machine-int boundary pool, each in both Int representations; evaluations = observations checked against the math/big oracle in the harness, distinct = distinct terms additionally evaluated in Coq against C10.Model and C10.Spec",
+        "rule": "ordered product of the boundary pool {0, +-1, +-2, +-3, +-7, +-10, +-2^31(+-1), +-2^32(+-1), +-2^53(+-1), +-2^63(+-1), +-2^64(+-1), ...} x itself x 10 binary operators x 6 comparisons, unary operators, shifts by boundary counts, seeded random magnitudes up to 2^200, ints x float pool (subnormals, +-0, +-inf, NaN, halves, neighbours of 2^31/2^32/2^53/2^63/2^64) for comparisons / mixed arithmetic / conversions, for every magnitude band 2^31..2^52 and both signs an int n against n+-0.5, n+-0.25 and the adjacent floats, for bands 2^53..2^1022 the nearest float, its neighbours and the ints adjacent to them (all six operators, both operand orders), int(string, base) on printed and corrupted literals, range/enumerate/repetition on a machine-int boundary pool, each in both Int representations; evaluations = observations checked against the math/big oracle in the harness, distinct = distinct terms additionally evaluated in Coq against C10.Model and C10.Spec",
         "samples": refs[:3] + refs[len(refs) // 2: len(refs) // 2 + 2],
         "distribution": dist,
         "coq_cases_per_kind": per_kind,
